@@ -4,6 +4,7 @@ package jp
 
 import (
 	"encoding/json"
+	"sort"
 )
 
 // TargetRest is used by the MatchHandler to associate a Target and Rest of a
@@ -37,6 +38,13 @@ func NewMatchHandler(onData func(path Expr, data any), targets ...Expr) *MatchHa
 		tr := TargetRest{Target: target}
 		for i, f := range target {
 			if _, ok := f.(*Filter); ok {
+				// A descent in front of the filter has to be evaluated with it.
+				for 0 < i {
+					if _, ok = target[i-1].(Descent); !ok {
+						break
+					}
+					i--
+				}
 				tr.Rest = target[i:]
 				tr.Target = target[:i]
 				break
@@ -138,9 +146,7 @@ func (h *MatchHandler) objArrayEnd() {
 	h.Path = h.Path[:len(h.Path)-1]
 	if 0 < len(h.Stack) {
 		if len(h.Stack) == 1 {
-			if v, p, ok := h.checkRest(h.Stack[0]); ok {
-				h.OnData(p, v)
-			}
+			h.report(h.Stack[0])
 		}
 		v := h.Stack[len(h.Stack)-1]
 		h.Stack = h.Stack[:len(h.Stack)-1]
@@ -164,24 +170,46 @@ func (h *MatchHandler) incNth() {
 	}
 }
 
-func (h *MatchHandler) checkRest(v any) (any, Expr, bool) {
-	var tr *TargetRest
+// report is called with a completed outermost container. A target that
+// selects the container itself wins, otherwise every location the rests of the
+// matching targets select inside it is reported once, outermost only.
+func (h *MatchHandler) report(v any) {
+	var locs []Expr
 	for _, t := range h.Targets {
 		if PathMatch(t.Target, h.Path) {
-			tr = t
-			break
+			if t.Rest == nil {
+				h.OnData(h.Path, v)
+				return
+			}
+			locs = append(locs, t.Rest.Locate(v, 0)...)
 		}
 	}
-	p := h.Path
-	if tr != nil && tr.Rest != nil {
-		locs := tr.Rest.Locate(v, 1)
-		if len(locs) == 0 {
-			return nil, p, false
+	sort.Slice(locs, func(i, j int) bool { return locLess(locs[i], locs[j]) })
+	var prev Expr
+	for _, loc := range locs {
+		if prev != nil && len(prev) <= len(loc) && !locLess(prev, loc[:len(prev)]) && !locLess(loc[:len(prev)], prev) {
+			continue // the same location again or a location inside the previous one
 		}
-		p = append(p, locs[0]...)
-		v = tr.Rest.First(v)
+		prev = loc
+		p := append(h.Path[:len(h.Path):len(h.Path)], loc...)
+		h.OnData(p, loc.First(v))
 	}
-	return v, p, true
+}
+
+func locLess(a, b Expr) bool {
+	for i := 0; i < len(a) && i < len(b); i++ {
+		switch ta := a[i].(type) {
+		case Nth:
+			if tb, ok := b[i].(Nth); ok && ta != tb {
+				return ta < tb
+			}
+		case Child:
+			if tb, ok := b[i].(Child); ok && ta != tb {
+				return ta < tb
+			}
+		}
+	}
+	return len(a) < len(b)
 }
 
 func (h *MatchHandler) pathMatch(leaf bool) bool {
